@@ -11,6 +11,7 @@ package main
 //   mux setupsync <n>                  n logical channels set up against a peer whose acknowledgement is routed before
 //                                       the client's Write of the setup packet returns
 //   mux closeiso <cap> <extra>          a logical channel is closed while another one holds cap+extra unread packages
+//   mux duplex <nchan> <rounds> <seed>  on every channel concurrently: part of a package arrives, the owner sends, the rest arrives
 //   mux closefail <once>                a logical channel is closed while the transport refuses the teardown packet
 //   mux setup <acktype>                 NewChannel for a logical channel succeeds iff the reply is a header-only
 //                                       PROTACK packet
@@ -397,6 +398,63 @@ func muxImpl(line string) string {
 			}
 		}
 		return "ok closeiso"
+	case "duplex":
+		// every channel, concurrently with the others over the one transport: the first part of a package
+		// arrives, the channel's owner sends a message, the rest of the package arrives — the package is
+		// delivered whole to its own channel, every time (sending and receiving share a channel, not state)
+		nchan, rounds, seed := arg(2), arg(3), arg(4)
+		mc := newMemConn()
+		conn, _ := tds.VerifNewConn(context.Background(), mc, testInfo(), true)
+		defer conn.VerifCancel()
+		var wg sync.WaitGroup
+		bad := make([]string, nchan)
+		for c := 0; c < nchan; c++ {
+			ch := conn.VerifNewChannel(c)
+			wg.Add(1)
+			go func(c int, ch *tds.Channel) {
+				defer wg.Done()
+				rng := rand.New(rand.NewSource(int64(seed*131 + c)))
+				for m := 0; m < rounds; m++ {
+					body := wDone(0xFD, 1, 0, c*1000+m)
+					cut := 1 + rng.Intn(len(body)-1)
+					mc.feed(append([]byte{4, 0, 0, byte(cut + 8), byte(c >> 8), byte(c), 0, 0}, body[:cut]...))
+					for i := 0; i < 4000; i++ { // until the reader has handed the first part to this channel
+						rx, _ := ch.VerifQueues()
+						if dl, _, _, _, _ := rx.VerifState(); len(dl) > 0 {
+							break
+						}
+						time.Sleep(50 * time.Microsecond)
+					}
+					pkg := tds.NewTokenlessPackage()
+					pkg.Data.Write(genBytes(1+rng.Intn(700), c+m))
+					if err := ch.SendPackage(context.Background(), pkg); err != nil {
+						bad[c] = "send:" + err.Error()
+						return
+					}
+					mc.feed(append([]byte{4, 1, 0, byte(len(body) - cut + 8), byte(c >> 8), byte(c), 0, 0}, body[cut:]...))
+					ctx, cancel := context.WithTimeout(context.Background(), 2*time.Second)
+					got, err := ch.NextPackage(ctx, true)
+					if d, ok := got.(*tds.DonePackage); err != nil || !ok || int(d.Count) != c*1000+m {
+						cancel()
+						bad[c] = fmt.Sprintf("round %d: got %v %v", m, got, err)
+						return
+					}
+					fin, err := ch.NextPackage(ctx, true) // the final DONE the channel supplies at the end of the message
+					cancel()
+					if d, ok := fin.(*tds.DonePackage); err != nil || !ok || d.Status != tds.TDS_DONE_FINAL {
+						bad[c] = fmt.Sprintf("round %d: end of message: got %v %v", m, fin, err)
+						return
+					}
+				}
+			}(c, ch)
+		}
+		wg.Wait()
+		for c, b := range bad {
+			if b != "" {
+				return fmt.Sprintf("each package is delivered to exactly the channel named in its packet header, whole, also when its owner sends between its parts (channel %d: %s)", c, b)
+			}
+		}
+		return "ok duplex"
 	case "closefail":
 		// a logical channel is closed while the transport refuses the write of the teardown packet (once, or
 		// from then on): the client-side teardown happens all the same — the id is no longer routed (a later
@@ -538,6 +596,7 @@ func init() {
 				if i%4 == 0 {
 					emit(Case{Line: fmt.Sprintf("mux closeiso %d %d", 1+rng.Intn(5), rng.Intn(4)), Kind: "close-isolated"})
 					emit(Case{Line: fmt.Sprintf("mux closefail %d #%d", i/4%2, i), Kind: "close-write-fails"})
+					emit(Case{Line: fmt.Sprintf("mux duplex %d %d %d", 1+rng.Intn(5), 1+rng.Intn(6), rng.Intn(1<<20)), Kind: "send-between-the-parts-of-a-package"})
 					emit(Case{Line: fmt.Sprintf("mux setupsync %d", 1+rng.Intn(4)), Kind: "setup-ack-at-once"})
 				}
 			}
